@@ -642,3 +642,97 @@ func (ti *TypeInfo) GenSubElementHistory(r *hx.Rng, family int) []hx.Zs {
 	}
 	return h
 }
+
+// GenDuplicateHistory (C04): stored lists that repeat an identifier or hold elements without identifier,
+// followed by remote writes that take the Merge / SortData path for a THIRD element (partial write with
+// identifiers, delete-only write with a selector, both combined). Such lists are set up by the application
+// (SetData / UpdateData) or by the peer itself: a selector write for a changeable element whose data
+// carries the identifier of another (protected) element. Whatever the list looks like, an accepted write
+// must keep every element that is protected or that it does not address, a rejected one everything.
+// Only for types with a single numeric identifier and one writecheck field; family 0 or 3.
+func (ti *TypeInfo) GenDuplicateHistory(r *hx.Rng, family int) []hx.Zs {
+	if len(ti.Keys) != 1 || len(ti.WC) != 1 || ti.Fields[ti.Keys[0]].Kind != KUint {
+		return ti.GenHistory(r, GenCfg{Family: family, RemotePct: 55, FlagFields: true, MaxLen: 7})
+	}
+	h := []hx.Zs{{0, int64(ti.Index), 0, int64(family)}}
+	wire, persist := int64(0), int64(1)
+	if family == 3 {
+		wire, persist = 1, 2
+	}
+	key, wc := ti.Keys[0], ti.WC[0]
+	flag := func() int64 { return []int64{2, 2, 2, 1, 0}[r.Intn(5)] } // true, false, absent
+	mk := func(id int, fl int64) []int64 {
+		var k []int64
+		if id > 0 {
+			k = []int64{int64(id)}
+		}
+		it := ti.genItem(r, k, 2, false, true)
+		it[wc] = fl
+		return it
+	}
+	selFor := func(id int) []int64 {
+		sel := make([]int64, len(ti.Sel))
+		for j, sf := range ti.Sel {
+			if sf.Kind == SField && sf.Index == key {
+				sel[j] = int64(id) + 1
+			}
+		}
+		return sel
+	}
+	// elements 1..n; 1 is protected, 2 and 3 are changeable, the rest mixed
+	n := r.Range(3, 6)
+	var items [][]int64
+	for id := 1; id <= n; id++ {
+		fl := flag()
+		if id == 1 {
+			fl = int64(r.Intn(2)) // false or absent
+		} else if id <= 3 {
+			fl = 2
+		}
+		items = append(items, mk(id, fl))
+	}
+	third := 3
+	switch r.Intn(3) {
+	case 0: // the application stores elements without identifier (protected and changeable ones) next to the others
+		for c := r.Range(2, 3); c > 0; c-- {
+			items = append([][]int64{mk(0, flag())}, items...)
+		}
+		if r.Bool() {
+			items = append(items, mk(0, flag()))
+		}
+		h = append(h, ti.EncodeUpdate(0, persist, 0, items, Filter{}, Filter{}))
+	case 1: // the application stores two elements under one identifier
+		dup := mk(1+r.Intn(n), flag())
+		pos := r.Intn(len(items) + 1)
+		items = append(items[:pos], append([][]int64{dup}, items[pos:]...)...)
+		h = append(h, ti.EncodeUpdate(0, persist, 0, items, Filter{}, Filter{}))
+	default: // the peer does it: selector write for changeable element 2 whose data carries identifier 1
+		h = append(h, ti.EncodeUpdate(0, persist, 0, items, Filter{}, Filter{}))
+		it := ti.genItem(r, []int64{1}, 2, true, false)
+		h = append(h, ti.EncodeUpdate(1, 1, wire, [][]int64{it}, Filter{Present: true, Sel: selFor(2)}, Filter{}))
+	}
+	for round := r.Range(2, 4); round > 0; round-- {
+		id := third
+		if r.Chance(1, 4) {
+			id = 1 + r.Intn(n) // sometimes a protected or repeated one: rejected, or all copies written
+		}
+		switch r.Intn(4) {
+		case 0, 1: // partial write with identifiers
+			l := [][]int64{ti.genItem(r, []int64{int64(id)}, 2, true, false)}
+			if r.Chance(1, 3) && n >= 4 && id < n {
+				l = append(l, ti.genItem(r, []int64{int64(n)}, 2, true, false))
+			}
+			h = append(h, ti.EncodeUpdate(1, 1, wire, l, Filter{Present: true}, Filter{}))
+		case 2: // delete-only write: clear elements of one element by selector
+			h = append(h, ti.EncodeUpdate(1, 1, wire, nil, Filter{}, Filter{Present: true, Sel: selFor(id), Elems: ti.genElems(r, true)}))
+		default: // delete by selector (n, if there is one beyond the third) combined with a partial write
+			del := n
+			if del == id {
+				del = 2
+			}
+			l := [][]int64{ti.genItem(r, []int64{int64(id)}, 2, true, false)}
+			h = append(h, ti.EncodeUpdate(1, 1, wire, l, Filter{Present: true}, Filter{Present: true, Sel: selFor(del)}))
+		}
+	}
+	return h
+}
